@@ -94,6 +94,19 @@ Theorem c09_last_batch_announces_responder_heads : forall rem view pre bs d,
 Proof. exact heads_trace_last. Qed.
 Print Assumptions c09_last_batch_announces_responder_heads.
 
+(* Model meets spec, heads conjunct: under the same hypotheses, and for every DAG G that agrees with the stored range, the
+   executable heads conjunct of spec_C09 ([heads_ok]: announced heads = [heads_of] of the changes of G before the first
+   change of the next batch) is TRUE of the observables of every response of the model. *)
+Theorem c09_model_heads_meet_spec : forall G sigma ourPath theirPath theirHeads maxSize bs cs,
+  respond sigma ourPath theirPath theirHeads maxSize = Some bs ->
+  choose_snapshot ourPath theirPath = Some cs ->
+  NoDup (map se_id (from_id cs sigma)) -> lin_ext (from_id cs sigma) ->
+  (forall e, In e (from_id cs sigma) -> ~ In (se_id e) (cprev (se_ch e))) ->
+  (forall e, In e (from_id cs sigma) -> find_change G (se_id e) = Some (se_ch e)) ->
+  heads_ok G (from_id cs sigma) (obs_list bs) = true.
+Proof. exact respond_heads_ok. Qed.
+Print Assumptions c09_model_heads_meet_spec.
+
 (* Bridge to C06.  C06 models (and compares on every step) the stored order of a replica as the canonical order of its
    stored set.  A stored sequence that IS that order of an acyclic set — previous ids of the root change outside it — has
    pairwise different ids and is a linear extension: the hypotheses of c09_causal and c09_heads_childless.  (What is not
@@ -113,8 +126,8 @@ Print Assumptions c09_canonical_store_is_causal.
        spec_C09 G sigma ... (ids and heads of (respond ...)) finalB = true
    needs the linear-extension property of the STORED order (hypothesis of c09_causal / c09_heads_childless; C06 proves it
    for the canonical order of an acyclic set, c06_topological, but the lexid order ids that realise the stored order are
-   not modelled), the translation of the Prop-level statements above into the executable conjuncts of spec_C09, and the
-   requester-side apply (C01).  Proved instead: the declarative components above, and the closed instance below. *)
+   not modelled), the translation of the remaining Prop-level statements above into the executable conjuncts of spec_C09
+   (done for the heads conjunct: c09_model_heads_meet_spec), and the requester-side apply (C01).  Proved instead: the declarative components above, and the closed instance below. *)
 
 (* ---- non-vacuity and the legacy behaviour (finding F16): tree 1 -> 2, 1 -> 3 -> 4, limit 150 ---- *)
 Definition f16_G := [mkChange 1 [] 0 true; mkChange 2 [1] 1 false; mkChange 3 [1] 1 false; mkChange 4 [3] 1 false].
